@@ -340,8 +340,8 @@ func (c *Ctx) lookupLocal(env *SpecEnv, name string) (Val, bool) {
 				if !ok || id.Name != name {
 					continue
 				}
-				if _, isVar := x.Object().(*types.Var); !isVar {
-					continue
+				if ov, isVar := x.Object().(*types.Var); !isVar || ov.IsField() {
+					continue // (field selections x.f also carry a debug reference for `f`)
 				}
 				if better(in) {
 					best, bestVal, bestAddr = in, x.X, x.IsAddr
@@ -371,6 +371,11 @@ func (c *Ctx) lookupLocal(env *SpecEnv, name string) (Val, bool) {
 		return Val{}, false
 	}
 	v, ok := fr.vals[bestVal]
+	if !ok {
+		if k, isConst := bestVal.(*ssa.Const); isConst {
+			v, ok = c.val(fr, env.cur, k), true
+		}
+	}
 	if !ok {
 		return Val{}, false
 	}
